@@ -1,7 +1,118 @@
-(* Properties/C03.v -- property theorems for C03; statements only. *)
+(* Properties/C03.v -- property theorems for C03 (the wire decoder is total,
+   bounded and accepts exactly well-formed messages); statements only.
+   Each is closed by [exact lemma] and followed by Print Assumptions.
+
+   [decode] is the model of Message::from_octets (Wire/WireModel.v); [Parses]
+   is the relational grammar written from RFC 1035 section 4.1
+   (Wire/WireGrammar.v).  Octets are [N] under the hypothesis that each is
+   below 256 (DESIGN 3.2). *)
 From RV Require Import Base.Prelude Base.Cursor Name.NameModel Name.NameSpec
   Wire.WireTypes Wire.WireModel Wire.WireGrammar Wire.WireDecodeProofs.
+
+(* 1. total: never a panic, and the fuel of the model (16385 nested name
+      decodings, 130 label-loop iterations) is never exhausted *)
+Theorem C03_decode_total : forall bs,
+  Forall (fun b => b < 256) bs -> decode bs <> Panic /\ decode bs <> OutOfFuel.
+Proof. exact decode_total. Qed.
+Print Assumptions C03_decode_total.
+
+(* the hop bound behind it: a name starting at [pos] is decoded by at most
+   min(pos, 16384) + 1 nested calls of DomainName::deserialise, because every
+   pointer target is strictly below the start of the name being read and below
+   2^14; any larger fuel changes nothing *)
+Theorem C03_decode_name_hops : forall bs, Forall (fun b => b < 256) bs ->
+  forall h pos, N.min pos 16384 < N.of_nat h ->
+    decode_name h bs (at_offset bs pos) <> Panic /\ decode_name h bs (at_offset bs pos) <> OutOfFuel.
+Proof. exact decode_name_hops. Qed.
+Print Assumptions C03_decode_name_hops.
+
+Theorem C03_decode_name_fuel_irrelevant : forall bs, Forall (fun b => b < 256) bs ->
+  forall h1 h2 pos, N.min pos 16384 < N.of_nat h1 -> N.min pos 16384 < N.of_nat h2 ->
+    decode_name h1 bs (at_offset bs pos) = decode_name h2 bs (at_offset bs pos).
+Proof. exact decode_name_fuel_indep. Qed.
+Print Assumptions C03_decode_name_fuel_irrelevant.
+
+(* 2. bounded work: DESIGN T.2 ([decode_steps]: at most c * (|bs|+1) * 16384 cursor
+      operations) is NOT proved; the hop bound above is the part of it that
+      concerns the recursion depth. *)
+
+(* 3. every error carries the first two octets as id when they exist, none otherwise *)
+Theorem C03_decode_err_id : forall bs e, decode bs = Err e ->
+  (2 <= llen bs -> exists a b, at_ bs 0 = Some a /\ at_ bs 1 = Some b /\ werr_id e = Some (a * 256 + b))
+  /\ (llen bs < 2 -> werr_id e = None).
+Proof. exact decode_err_id. Qed.
+Print Assumptions C03_decode_err_id.
 
 Theorem C03_decode_short : forall bs, llen bs < 2 -> decode bs = Err (CompletelyBusted, None).
 Proof. exact decode_short. Qed.
 Print Assumptions C03_decode_short.
+
+(* 4. accepts exactly the well-formed messages, and decodes them to what the grammar says *)
+Theorem C03_decode_sound : forall bs m,
+  Forall (fun b => b < 256) bs -> decode bs = Ok m -> Parses bs m.
+Proof. exact decode_sound. Qed.
+Print Assumptions C03_decode_sound.
+
+Theorem C03_decode_complete : forall bs m,
+  Forall (fun b => b < 256) bs -> Parses bs m -> decode bs = Ok m.
+Proof. exact decode_complete. Qed.
+Print Assumptions C03_decode_complete.
+
+Theorem C03_decode_exact : forall bs, Forall (fun b => b < 256) bs ->
+  (forall m, decode bs = Ok m <-> Parses bs m)
+  /\ ((exists e, decode bs = Err e) <-> ~ exists m, Parses bs m).
+Proof.
+  intros bs Hbs. split.
+  - intro m. split; [apply decode_sound | apply decode_complete]; exact Hbs.
+  - destruct (decode_total bs Hbs) as [HP HF]. split.
+    + intros [e He] [m Hm]. apply (decode_complete bs m Hbs) in Hm. congruence.
+    + intro Hno. destruct (decode bs) as [m|e| |] eqn:Ed; try contradiction.
+      * exfalso. apply Hno. exists m. apply decode_sound; assumption.
+      * exists e. reflexivity.
+Qed.
+Print Assumptions C03_decode_exact.
+
+(* 5. what is decoded is a well-formed message value (names satisfy C16's wf_name,
+      integers in range, RDATA shape fits the type code) *)
+Theorem C03_decode_wf : forall bs m,
+  Forall (fun b => b < 256) bs -> decode bs = Ok m -> wf_message m.
+Proof. exact decode_wf. Qed.
+Print Assumptions C03_decode_wf.
+
+(* ---- the hypotheses are satisfiable: a response with two answers whose owner
+        names are compression pointers to the question name ---- *)
+Definition ex_bytes : list byte :=
+  [18; 52; 133; 128; 0; 1; 0; 2; 0; 0; 0; 0; 3; 119; 119; 119; 7; 101; 120; 97; 109; 112; 108; 101; 3; 99; 111; 109; 0; 0; 1; 0; 1; 192; 12; 0; 1; 0; 1; 0; 0; 1; 44; 0; 4; 1; 2; 3; 4; 192; 12; 0; 15; 0; 1; 0; 0; 1; 44; 0; 20; 0; 10; 4; 109; 97; 105; 108; 7; 101; 120; 97; 109; 112; 108; 101; 3; 99; 111; 109; 0].
+
+Definition ex_www : dname := {| labels := [[119; 119; 119]; [101; 120; 97; 109; 112; 108; 101]; [99; 111; 109]; []]; nlen := 17 |}.
+Definition ex_mail : dname := {| labels := [[109; 97; 105; 108]; [101; 120; 97; 109; 112; 108; 101]; [99; 111; 109]; []]; nlen := 18 |}.
+
+Definition ex_msg : message :=
+  {| m_header := {| h_id := 4660; h_qr := true; h_opcode := 0; h_aa := true; h_tc := false; h_rd := true;
+                    h_ra := true; h_rcode := 0 |};
+     m_questions := [ {| q_name := ex_www; q_type := 1; q_class := 1 |} ];
+     m_answers := [ {| rr_name := ex_www; rr_type := 1; rr_class := 1; rr_ttl := 300; rr_data := RD_A 16909060 |};
+                    {| rr_name := ex_www; rr_type := 15; rr_class := 1; rr_ttl := 300; rr_data := RD_MX 10 ex_mail |} ];
+     m_authority := []; m_additional := [] |}.
+
+Lemma ex_bytes_small : Forall (fun b => b < 256) ex_bytes.
+Proof.
+  apply Forall_forall. intros b Hb.
+  assert (H := proj1 (forallb_forall (fun b => b <? 256) ex_bytes) eq_refl b Hb).
+  apply N.ltb_lt in H. exact H.
+Qed.
+
+Example C03_example_decodes : decode ex_bytes = Ok ex_msg.
+Proof. vm_compute. reflexivity. Qed.
+
+Example C03_example_parses : Parses ex_bytes ex_msg /\ wf_message ex_msg.
+Proof.
+  split; [apply C03_decode_sound | apply (C03_decode_wf ex_bytes)];
+    first [exact ex_bytes_small | exact C03_example_decodes].
+Qed.
+
+(* a name that is a pointer to itself is rejected, with the id *)
+Example C03_example_selfloop :
+  decode [18; 52; 1; 0; 0; 1; 0; 0; 0; 0; 0; 0; 3; 119; 119; 119; 192; 12; 0; 1; 0; 1]
+  = Err (DomainPointerInvalid, Some 4660).
+Proof. vm_compute. reflexivity. Qed.
